@@ -1,7 +1,7 @@
 (* Proofs/NewtonJac.v -- C18: the entries of the finite-difference Jacobian are the forward
    difference quotients (over a ring, where (a + d) - d = a restores the coordinate), and the
    Jacobian of an affine map x -> Mx + c is M exactly (over a field). *)
-From Coq Require Import List Arith Lia Bool Ring_theory Field_theory.
+From Coq Require Import List Arith Lia Bool Ring_theory Field_theory Ring Field.
 From OV Require Import Base.Panic Base.Arith Model.Vector Model.Matrix Model.Newton
   Proofs.Matrix Proofs.Newton.
 Import ListNotations.
@@ -168,7 +168,7 @@ Lemma sum_n_perturbed (a : nat -> A) (x : list A) (d : A) j n :
 Proof.
   intros Hj. induction n as [|n IH]; cbn [sum_n].
   - cbn. ring.
-  - rewrite IH. unfold perturbed at 2. rewrite (nth_upd_list x j n _ zero Hj).
+  - rewrite IH. unfold perturbed. rewrite (nth_upd_list x j n _ zero Hj).
     destruct (Nat.eqb_spec n j) as [->|Hn].
     + destruct (Nat.ltb_spec j j); [lia|]. destruct (Nat.ltb_spec j (S j)); [|lia]. ring.
     + destruct (Nat.ltb_spec j n), (Nat.ltb_spec j (S n)); try lia; ring.
@@ -210,6 +210,32 @@ Proof.
   destruct (Nat.ltb_spec j (cols M)) as [_|]; [|lia].
   rewrite (fl_div A FL) in Eq. destruct (eqb d zero) eqn:E; [discriminate|].
   injection Eq as <-. field. exact Hd.
+Qed.
+
+(* two well-formed matrices of the same shape with the same entries are the same record *)
+Lemma nw_mat_ext (J M : matrix A) :
+  wf J -> wf M -> rows J = rows M -> cols J = cols M ->
+  (forall i j, i < rows M -> j < cols M -> mget J i j = Ok (ment M i j)) -> J = M.
+Proof.
+  destruct J as [bj rj cj], M as [bm rm cm]. unfold wf, mget, ment. cbn.
+  intros WJ WM -> -> H. f_equal.
+  apply (nth_ext _ _ zero zero); [congruence|].
+  intros k Hk. rewrite WJ in Hk.
+  assert (Hc : 0 < cm) by (destruct cm; [lia|lia]).
+  assert (Hq : k / cm < rm) by (apply Nat.div_lt_upper_bound; lia).
+  assert (Hr : k mod cm < cm) by (apply Nat.mod_upper_bound; lia).
+  specialize (H (k / cm) (k mod cm) Hq Hr).
+  replace (k / cm * cm + k mod cm) with k in H by (rewrite (Nat.div_mod k cm) at 1; lia).
+  apply (rd_Ok_inv _ _ _ zero) in H as [_ H]. now rewrite H.
+Qed.
+
+Lemma jacobian_affine_eq (M : matrix A) (c x : list A) (d : A) :
+  d <> zero -> wf M -> length x = cols M ->
+  exists evs, jacobian O (fun p => Ok (aff M c p)) x d = Ok (M, evs).
+Proof.
+  intros Hd W Lx.
+  destruct (jacobian_affine_lemma M c x d Hd W Lx) as (J & evs & EJ & WJ & RJ & CJ & H).
+  exists evs. rewrite EJ. do 2 f_equal. now apply nw_mat_ext.
 Qed.
 
 End Affine.
